@@ -428,6 +428,18 @@ pub fn run(a: &Args, r: &mut Report) {
                     judge(r, &case, &cuts, &got, None, "udp-loopback(real socket arm)");
                 }
             }
+            if i % 16 == 3 && raw.len() > 1024 {
+                // datagrams as a UDP relay really sends them: MTU-sized (1400) or a whole socat block (8192), i.e. longer
+                // than 1024 bytes. A datagram is delivered by one read or not at all.
+                let size = if i % 32 == 3 { 1400 } else { 8192 };
+                let chunks: Vec<Vec<u8>> = raw.chunks(size).map(|c| c.to_vec()).collect();
+                if let Some(got) = run_reader_udp(&rt_io, chunks) {
+                    judge(r, &case, &[], &got, None, "udp-large-datagram(real socket arm)");
+                }
+                // the same through the hook: one chunk holding the whole stream
+                let got = run_reader(&rt, vec![raw.clone()]);
+                judge(r, &case, &[], &got, coarse.as_ref().ok(), "whole-stream-in-one-read(> 1024 bytes)");
+            }
         }
         if unavailable {
             r.class("sockets:loopback-unavailable(socket arms not exercised)");
@@ -450,6 +462,6 @@ pub fn run(a: &Args, r: &mut Report) {
         exercise(r, &rt, &mut rng, &frames, false, 0);
     }
     if !a.asan {
-        r.extra.insert("mandatory".into(), json!(["one-piece", "single-cut(exhaustive)", "double-cut(exhaustive)", "dribble(1-byte reads)", "cut:between-two-0x1A", "cut:just-after-0x1A", "cut:just-before-0x1A", "cut:at-frame-boundary", "cut-at-escape-pair"]));
+        r.extra.insert("mandatory".into(), json!(["one-piece", "single-cut(exhaustive)", "double-cut(exhaustive)", "dribble(1-byte reads)", "cut:between-two-0x1A", "cut:just-after-0x1A", "cut:just-before-0x1A", "cut:at-frame-boundary", "cut-at-escape-pair", "udp-large-datagram(real socket arm)", "whole-stream-in-one-read(> 1024 bytes)", "tcp-loopback(real socket arm)"]));
     }
 }
